@@ -186,6 +186,18 @@ def cli_case(job):
         msgs.append(f"silent-cli: `cminx -r -o out dir` exits 0 although dir/bad.cmake has {kind} at offset {pos}")
     if os.path.exists(os.path.join(root, "out2", "bad.rst")):
         msgs.append(f"silent-cli: `cminx -r -o out dir` wrote bad.rst for {kind} at offset {pos} of {name}")
+    # the faulty module in a sub-directory, next to nothing, with the base name of a good module one level up
+    os.makedirs(os.path.join(root, "in2", "sub"))
+    for g in ("in2/util.cmake", "in2/sub/other.cmake"):
+        with open(os.path.join(root, g), "w") as f:
+            f.write(BASES["flat_sets"])
+    with open(os.path.join(root, "in2", "sub", "util.cmake"), "w", encoding="utf-8") as f:
+        f.write(text)
+    p4 = subprocess.run([common.PYTHON, "-c", code, "-r", "-o", os.path.join(root, "out4"), os.path.join(root, "in2")],
+                        capture_output=True, text=True, env=env, cwd=root)
+    if p4.returncode == 0 or os.path.exists(os.path.join(root, "out4", "sub", "util.rst")):
+        msgs.append(f"silent-cli: `cminx -r -o out dir` exits {p4.returncode} although dir/sub/util.cmake (same base name as "
+                    f"the good dir/util.cmake) has {kind} at offset {pos}")
     p3 = subprocess.run([common.PYTHON, "-c", code, "-o", os.path.join(root, "out3"), os.path.join(root, "in")],
                         capture_output=True, text=True, env=env, cwd=root)
     if p3.returncode == 0:
